@@ -489,6 +489,9 @@ class World(object):
                 return True
             if out == 'false':
                 return False
+            if out == 'none':
+                # a hook without a return statement: no verdict is no "true"
+                return None
             return out
         _hook.__name__ = 'simhook_%s' % hook
         return _hook
